@@ -185,9 +185,10 @@ Lemma step_tgt : forall s l,
   \/ (l = TgtPoll /\ tgt (step s l) = tgt_poll (now s) (tgt s))
   \/ (exists r, l = TStop r /\ tgt (step s l) = tgt_stop r None (tgt s))
   \/ (l = TKill /\ tgt (step s l) = tgt_kill None (tgt s))
-  \/ (l = TDrain /\ tgt (step s l) = tgt_drain (now s) (tgt s)).
+  \/ (l = TDrain /\ tgt (step s l) = tgt_drain (now s) (tgt s))
+  \/ (l = TgtStart /\ tgt (step s l) = tgt_start (tgt s)).
 Proof.
-  intros. destruct l; simpl; eauto 8;
+  intros. destruct l; simpl; eauto 10;
     try (right; left; split; [reflexivity|intros ? ? ? (F & _); discriminate F]).
   - destruct (nth_error (timers s) i) eqn:E.
     + unfold poll_timer. destruct (poll_eff _ _ _) eqn:P; simpl.
@@ -480,7 +481,7 @@ Proof.
       rewrite NK in K2 by (intros; discriminate). eapply SC; eauto.
 Qed.
 
-Lemma Inv1_init : forall t, Inv1 (init t).
+Lemma Inv1_init : forall t pk, Inv1 (init t pk).
 Proof.
   intros. split; [|split; [|split]].
   - intros j tm N. destruct j; discriminate.
@@ -489,7 +490,7 @@ Proof.
   - intros i tm k N. destruct i; discriminate.
 Qed.
 
-Lemma Inv1_run : forall ls t, Inv1 (run ls (init t)).
+Lemma Inv1_run : forall ls t pk, Inv1 (run ls (init t pk)).
 Proof.
   induction ls using rev_ind; intros.
   - apply Inv1_init.
@@ -627,7 +628,7 @@ Proof.
   assert (OR0 : forall i r t, origin_ok s i r t -> origin_ok (step s l) i r t)
     by (intros; eapply origin_ok_step; eauto; lia).
   destruct (step_tgt s l) as
-    [(i & tm & w & F & TG)|[(TG & NF)|[(-> & TG)|[(r & -> & TG)|[(-> & TG)|(-> & TG)]]]]].
+    [(i & tm & w & F & TG)|[(TG & NF)|[(-> & TG)|[(r & -> & TG)|[(-> & TG)|[(-> & TG)|(-> & TG)]]]]]].
   - (* a timer task fires *)
     pose proof F as (-> & N & PE).
     destruct (fire_eff_ok _ _ _ _ (TO _ _ N) PE) as (NI & EOK & SK & NK).
@@ -742,23 +743,29 @@ Proof.
       split; auto. intros _. apply D2. intro X. rewrite X in A. discriminate.
     + split; [intros X; rewrite (proj1 Hest X) in A; discriminate|discriminate].
     + split; auto. split; [intro X; congruence|discriminate].
+  - (* pre_start / post_start return *)
+    destruct OK as [Hmb Hlog Hdel Hstop Hkill Hexit Hexl Hest Hleft Hstart].
+    unfold step in *. simpl. unfold tgt_start.
+    destruct (g_status (tgt s)) eqn:ST; try (constructor; simpl; rewrite ?ST; auto; fail).
+    constructor; simpl; auto; try discriminate.
+    + destruct Hdel as (rest & D1 & D2). exists rest. split; auto. intros _. apply D2. discriminate.
+    + split; [intro X|discriminate]. apply Hest in X. discriminate.
 Qed.
 
-Lemma tgt_ok_init : forall t, tgt_ok (init t).
+Lemma tgt_ok_init : forall t pk, tgt_ok (init t pk).
 Proof.
-  intros. constructor; simpl; try discriminate; try (intros; contradiction).
-  - exists []. auto.
-  - split; [intro X; congruence|discriminate].
-  - split; [split; auto|discriminate].
+  intros. destruct pk; constructor; simpl; try discriminate; try (intros; contradiction);
+    try (exists []; auto; fail); try (split; [intro X; congruence|discriminate]);
+    try (split; [split; auto|discriminate]).
 Qed.
 
 Definition Inv2 (s : state) : Prop := Inv1 s /\ tgt_ok s.
 
-Lemma Inv2_run : forall ls t, Inv2 (run ls (init t)).
+Lemma Inv2_run : forall ls t pk, Inv2 (run ls (init t pk)).
 Proof.
   induction ls using rev_ind; intros.
   - split; [apply Inv1_init|apply tgt_ok_init].
-  - rewrite run_snoc. destruct (IHls t). split; [apply Inv1_step|apply tgt_ok_step]; auto.
+  - rewrite run_snoc. destruct (IHls t pk). split; [apply Inv1_step|apply tgt_ok_step]; auto.
 Qed.
 
 (* ---------- stability: finished tasks, dead targets ---------- *)
@@ -811,7 +818,7 @@ Lemma dead_stays_dead : forall s l,
 Proof.
   intros s l A.
   destruct (step_tgt s l) as
-    [(i & tm & w & F & TG)|[(TG & NF)|[(-> & TG)|[(r & -> & TG)|[(-> & TG)|(-> & TG)]]]]]; rewrite TG; auto.
+    [(i & tm & w & F & TG)|[(TG & NF)|[(-> & TG)|[(r & -> & TG)|[(-> & TG)|[(-> & TG)|(-> & TG)]]]]]]; rewrite TG; auto.
   - destruct w; simpl; auto.
     + destruct (tgt_stop_shape (RExitAfter (k_dur tm / ms)) (Some i) (tgt s)) as (E1 & _). rewrite E1. auto.
     + destruct (tgt_kill_shape (Some i) (tgt s)) as (E1 & _). rewrite E1. auto.
@@ -821,6 +828,7 @@ Proof.
   - destruct (tgt_stop_shape r None (tgt s)) as (E1 & _). rewrite E1. auto.
   - destruct (tgt_kill_shape None (tgt s)) as (E1 & _). rewrite E1. auto.
   - unfold tgt_drain. rewrite A. auto.
+  - unfold tgt_start. destruct (g_status (tgt s)) eqn:ST; simpl in *; rewrite ?ST; auto; try discriminate.
 Qed.
 
 Lemma dead_no_sends : forall s l,
@@ -849,7 +857,7 @@ Lemma step_left : forall s l,
 Proof.
   intros s l.
   destruct (step_tgt s l) as
-    [(i & tm & w & F & TG)|[(TG & NF)|[(-> & TG)|[(r & -> & TG)|[(-> & TG)|(-> & TG)]]]]]; rewrite TG; auto.
+    [(i & tm & w & F & TG)|[(TG & NF)|[(-> & TG)|[(r & -> & TG)|[(-> & TG)|[(-> & TG)|(-> & TG)]]]]]]; rewrite TG; auto.
   - destruct w; simpl; auto.
     + destruct (tgt_stop_shape (RExitAfter (k_dur tm / ms)) (Some i) (tgt s)) as (_ & _ & _ & _ & _ & E & _). auto.
     + destruct (tgt_kill_shape (Some i) (tgt s)) as (_ & _ & _ & _ & _ & E & _). auto.
@@ -866,6 +874,7 @@ Proof.
   - destruct (tgt_kill_shape None (tgt s)) as (_ & _ & _ & _ & _ & E & _). auto.
   - unfold tgt_drain. destruct (accepts _); auto. simpl. unfold note_left.
     destruct (g_left (tgt s)); auto. destruct (is_active _); auto.
+  - unfold tgt_start. destruct (g_status (tgt s)); auto.
 Qed.
 
 Definition ival_ok (s : state) : Prop :=
@@ -913,7 +922,7 @@ Proof.
     destruct (k_pc tm'); auto.
 Qed.
 
-Lemma ival_ok_run : forall ls t, ival_ok (run ls (init t)).
+Lemma ival_ok_run : forall ls t pk, ival_ok (run ls (init t pk)).
 Proof.
   induction ls using rev_ind; intros.
   - intros i tm N. destruct i; discriminate.
@@ -1023,7 +1032,7 @@ Proof.
       destruct (k_kind tm); try destruct (accepts _); simpl; auto; right; intuition.
 Qed.
 
-Lemma born_ok_run : forall ls t, born_ok (run ls (init t)).
+Lemma born_ok_run : forall ls t pk, born_ok (run ls (init t pk)).
 Proof.
   induction ls using rev_ind; intros.
   - intros i tm N. destruct i; discriminate.
@@ -1050,8 +1059,8 @@ Qed.
 
 (* send_after: at most once, numbered 1, never before creation + period; handled at most
    once and never before; the handle says Ok exactly when the message was enqueued *)
-Theorem after_once_not_early : forall ls t0 i tm,
-  let s := run ls (init t0) in
+Theorem after_once_not_early : forall pk ls t0 i tm,
+  let s := run ls (init t0 pk) in
   nth_error (timers s) i = Some tm -> k_kind tm = KAfter ->
   NoDup (pairs (effs s)) /\ NoDup (log_pairs (g_log (tgt s)))
   /\ (forall e k, In e (effs s) -> e_tid e = i -> e_what e = ESent k ->
@@ -1059,8 +1068,8 @@ Theorem after_once_not_early : forall ls t0 i tm,
   /\ (forall k t, In (i, k, t) (g_log (tgt s)) -> k = 1 /\ k_born tm + k_dur tm <= t)
   /\ (k_pc tm = PDone ROk <-> In (i, 1) (pairs (effs s))).
 Proof.
-  intros ls t0 i tm s N K. subst s.
-  destruct (Inv2_run ls t0) as ((TO & EO & ND & SC) & OK). pose proof (born_ok_run ls t0 _ _ N) as BO.
+  intros pk ls t0 i tm s N K. subst s.
+  destruct (Inv2_run ls t0 pk) as ((TO & EO & ND & SC) & OK). pose proof (born_ok_run ls t0 pk _ _ N) as BO.
   destruct (after_sent _ _ (TO _ _ N) K) as (S1 & S2).
   assert (NE : forall k t, 1 <= k -> k <= k_sent tm -> ceil_ms (k_t0 tm + k * k_dur tm) <= t ->
                k = 1 /\ k_born tm + k_dur tm <= t).
@@ -1080,8 +1089,8 @@ Proof.
 Qed.
 
 (* the step at which a due send_after task is polled: delivered iff the target accepts *)
-Theorem after_fires : forall ls t0 i tm D,
-  let s := run ls (init t0) in
+Theorem after_fires : forall pk ls t0 i tm D,
+  let s := run ls (init t0 pk) in
   nth_error (timers s) i = Some tm -> k_kind tm = KAfter -> k_pc tm = PWait D ->
   ceil_ms D <= now s ->
   let s' := step s (Poll i) in
@@ -1090,8 +1099,8 @@ Theorem after_fires : forall ls t0 i tm D,
        /\ g_mbox (tgt s') = g_mbox (tgt s) ++ [MTick i 1]
   else nth_error (timers s') i = Some (set_pc tm (PDone RErr)) /\ tgt s' = tgt s.
 Proof.
-  intros ls t0 i tm D s N K P C s'. subst s s'.
-  destruct (Inv1_run ls t0) as (TO & _). destruct (after_sent _ _ (TO _ _ N) K) as (S1 & S2).
+  intros pk ls t0 i tm D s N K P C s'. subst s s'.
+  destruct (Inv1_run ls t0 pk) as (TO & _). destruct (after_sent _ _ (TO _ _ N) K) as (S1 & S2).
   assert (S0 : k_sent tm = 0).
   { destruct (N.eq_dec (k_sent tm) 1) as [X|X]; [|lia]. apply S2 in X. congruence. }
   apply elapsed_true in C. rewrite (poll_nth _ _ _ N).
@@ -1100,8 +1109,8 @@ Proof.
 Qed.
 
 (* abort: from the abort on, the task's record and its effects on the target are frozen *)
-Theorem abort_prevents : forall ls1 ls2 t0 i,
-  let s1 := run ls1 (init t0) in
+Theorem abort_prevents : forall pk ls1 ls2 t0 i,
+  let s1 := run ls1 (init t0 pk) in
   (i < length (timers s1))%nat ->
   let s2 := step s1 (Abort i) in
   let s3 := run ls2 s2 in
@@ -1110,7 +1119,7 @@ Theorem abort_prevents : forall ls1 ls2 t0 i,
   /\ (forall tm, nth_error (timers s1) i = Some tm -> finished (k_pc tm) = false ->
         exists tm', nth_error (timers s3) i = Some tm' /\ k_pc tm' = PAborted).
 Proof.
-  intros ls1 ls2 t0 i s1 LT s2 s3. subst s3 s2.
+  intros pk ls1 ls2 t0 i s1 LT s2 s3. subst s3 s2.
   destruct (nth_error (timers s1) i) as [tm|] eqn:N; [|apply nth_error_None in N; lia].
   destruct (abort_finishes _ _ _ N) as (tm' & N' & F & E & AB).
   destruct (finished_stable_run ls2 _ _ _ N' F) as (N'' & E''). rewrite N', N'', E'', E.
@@ -1119,8 +1128,8 @@ Qed.
 
 (* dead target: once the target refuses messages nothing is delivered any more, and a
    send_after that had not delivered reports Err through its handle if it finishes *)
-Theorem dead_target_err : forall ls1 ls2 t0,
-  let s1 := run ls1 (init t0) in
+Theorem dead_target_err : forall pk ls1 ls2 t0,
+  let s1 := run ls1 (init t0 pk) in
   accepts (g_status (tgt s1)) = false ->
   let s2 := run ls2 s1 in
   pairs (effs s2) = pairs (effs s1)
@@ -1128,13 +1137,13 @@ Theorem dead_target_err : forall ls1 ls2 t0,
        nth_error (timers s1) i = Some tm1 -> nth_error (timers s2) i = Some tm2 ->
        k_kind tm2 = KAfter -> k_pc tm1 <> PDone ROk -> k_pc tm2 = PDone r -> r = RErr.
 Proof.
-  intros ls1 ls2 t0 s1 A s2. destruct (dead_run ls2 s1 A) as (A2 & P2). split; auto.
+  intros pk ls1 ls2 t0 s1 A s2. destruct (dead_run ls2 s1 A) as (A2 & P2). split; auto.
   intros i tm1 tm2 r N1 N2 K NP P. subst s2 s1. rewrite <- run_app in *.
-  destruct (Inv1_run (ls1 ++ ls2) t0) as (TO2 & EO2 & _ & SC2).
-  destruct (Inv1_run ls1 t0) as (TO1 & EO1 & _ & _).
+  destruct (Inv1_run (ls1 ++ ls2) t0 pk) as (TO2 & EO2 & _ & SC2).
+  destruct (Inv1_run ls1 t0 pk) as (TO1 & EO1 & _ & _).
   destruct (after_sent _ _ (TO2 _ _ N2) K) as (S1 & S2).
   destruct r; auto.
-  - exfalso. assert (IN : In (i, 1) (pairs (effs (run (ls1 ++ ls2) (init t0))))).
+  - exfalso. assert (IN : In (i, 1) (pairs (effs (run (ls1 ++ ls2) (init t0 pk))))).
     { eapply SC2; eauto; try lia. apply S2 in P. lia. }
     rewrite P2 in IN. pose proof (sent_bound _ _ _ _ EO1 IN N1) as B.
     assert (K1 : k_kind tm1 = KAfter).
@@ -1144,7 +1153,7 @@ Proof.
         destruct (step_timer _ _ _ _ N2) as [N|[(k & d & -> & -> & ->)|[(tm & -> & N & F & ->)|(tm & -> & N & ->)]]].
         + eauto.
         + exfalso. rewrite run_app in N2. pose proof (nth_some_lt _ _ _ N1).
-          assert (length (timers (run ls1 (init t0))) <= length (timers (run ls2 (run ls1 (init t0)))))%nat.
+          assert (length (timers (run ls1 (init t0 pk))) <= length (timers (run ls2 (run ls1 (init t0 pk)))))%nat.
           { clear. induction ls2 using rev_ind; simpl; auto. rewrite run_snoc.
             eapply Nat.le_trans; eauto. clear. set (s := run ls2 _). destruct x; unfold step; simpl; auto.
             - destruct (nth_error (timers s) i); auto. unfold poll_timer. destruct (poll_eff _ _ _); simpl; rewrite upd_length; auto.
@@ -1152,7 +1161,7 @@ Proof.
             - rewrite app_length. simpl. lia. }
           rewrite <- run_app in H0. lia.
         + eapply IHls2; eauto.
-        + eapply IHls2; eauto. destruct (poll_tm_same (now (run (ls1 ++ ls2) (init t0))) (g_status (tgt (run (ls1 ++ ls2) (init t0)))) tm) as (KK & _). congruence. }
+        + eapply IHls2; eauto. destruct (poll_tm_same (now (run (ls1 ++ ls2) (init t0 pk))) (g_status (tgt (run (ls1 ++ ls2) (init t0 pk)))) tm) as (KK & _). congruence. }
     destruct (after_sent _ _ (TO1 _ _ N1) K1) as (S1' & S2'). apply NP. apply S2'. lia.
   - exfalso. pose proof (TO2 _ _ N2) as TK. unfold timer_ok in TK. rewrite P, K in TK. intuition.
 Qed.
@@ -1161,8 +1170,8 @@ Qed.
    deadline ceil_ms (t0 + k*p) >= born + k*p, where t0 is the first poll of the task: the
    deadline is k periods after t0 whatever happened to the earlier ticks (no drift); each
    number 1..k_sent is enqueued exactly once *)
-Theorem interval_kth : forall ls t0 i tm,
-  let s := run ls (init t0) in
+Theorem interval_kth : forall pk ls t0 i tm,
+  let s := run ls (init t0 pk) in
   nth_error (timers s) i = Some tm -> k_kind tm = KInterval ->
   (forall e k, In e (effs s) -> e_tid e = i -> e_what e = ESent k ->
      1 <= k /\ k <= k_sent tm /\ ceil_ms (k_t0 tm + k * k_dur tm) <= e_time e
@@ -1172,8 +1181,8 @@ Theorem interval_kth : forall ls t0 i tm,
   /\ (forall k, 1 <= k -> k <= k_sent tm -> In (i, k) (pairs (effs s)))
   /\ NoDup (pairs (effs s)) /\ NoDup (log_pairs (g_log (tgt s))).
 Proof.
-  intros ls t0 i tm s N K. subst s.
-  destruct (Inv2_run ls t0) as ((TO & EO & ND & SC) & OK). pose proof (born_ok_run ls t0 _ _ N) as BO.
+  intros pk ls t0 i tm s N K. subst s.
+  destruct (Inv2_run ls t0 pk) as ((TO & EO & ND & SC) & OK). pose proof (born_ok_run ls t0 pk _ _ N) as BO.
   assert (NE : forall k t, 1 <= k -> k <= k_sent tm -> ceil_ms (k_t0 tm + k * k_dur tm) <= t ->
                k_born tm + k * k_dur tm <= t).
   { intros k t K1 K2 C. pose proof (le_ceil (k_t0 tm + k * k_dur tm)). destruct BO; lia. }
@@ -1197,16 +1206,16 @@ Qed.
 (* on a prompt schedule the k-th message is enqueued at EXACTLY the k-th wheel deadline
    counted from the creation of the timer; with an aligned creation time and period that is
    born + k*p on the nose *)
-Theorem interval_kth_exact : forall ls t0 e k,
-  prompt ls (init t0) ->
-  let s := run ls (init t0) in
+Theorem interval_kth_exact : forall pk ls t0 e k,
+  prompt ls (init t0 pk) ->
+  let s := run ls (init t0 pk) in
   In e (effs s) -> e_what e = ESent k ->
   exists tm, nth_error (timers s) (e_tid e) = Some tm
              /\ e_time e = ceil_ms (k_born tm + k * k_dur tm)
              /\ (k_born tm mod ms = 0 -> k_dur tm mod ms = 0 -> e_time e = k_born tm + k * k_dur tm).
 Proof.
-  intros ls t0 e k PR s IN W. subst s.
-  assert (EX : exact_ok (run ls (init t0))).
+  intros pk ls t0 e k PR s IN W. subst s.
+  assert (EX : exact_ok (run ls (init t0 pk))).
   { apply prompt_exact; auto.
     - apply Inv1_init.
     - intros i tm N. destruct i; discriminate.
@@ -1217,8 +1226,8 @@ Qed.
 
 (* an interval task is finished at the latest when it is blocked at a time >= one (wheel-
    rounded) period after the target left the active states *)
-Theorem interval_ends : forall ls t0 i tm tl,
-  let s := run ls (init t0) in
+Theorem interval_ends : forall pk ls t0 i tm tl,
+  let s := run ls (init t0 pk) in
   nth_error (timers s) i = Some tm -> k_kind tm = KInterval ->
   g_left (tgt s) = Some tl ->
   timer_enabled (now s) tm = false ->             (* the task has run as far as it can *)
@@ -1226,51 +1235,51 @@ Theorem interval_ends : forall ls t0 i tm tl,
   tl + ceil_ms (k_dur tm) <= now s ->
   finished (k_pc tm) = true.
 Proof.
-  intros ls t0 i tm tl s N K GL EN C0 C1. subst s.
-  pose proof (ival_ok_run ls t0 _ _ N K) as IV. rewrite GL in IV.
-  destruct (Inv2_run ls t0) as ((TO & _) & OK). pose proof (TO _ _ N) as TK.
+  intros pk ls t0 i tm tl s N K GL EN C0 C1. subst s.
+  pose proof (ival_ok_run ls t0 pk _ _ N K) as IV. rewrite GL in IV.
+  destruct (Inv2_run ls t0 pk) as ((TO & _) & OK). pose proof (TO _ _ N) as TK.
   unfold timer_ok in TK. destruct TK as (_ & TK).
   unfold timer_enabled in EN. destruct (k_pc tm) eqn:P; auto; try discriminate.
   - exfalso. destruct TK as (_ & -> & _).
-    assert (elapsed (now (run ls (init t0))) (k_t0 tm) = true) by (apply elapsed_true; auto). congruence.
+    assert (elapsed (now (run ls (init t0 pk))) (k_t0 tm) = true) by (apply elapsed_true; auto). congruence.
   - exfalso. destruct IV as (Dp & -> & CP).
-    assert (EL : elapsed (now (run ls (init t0))) (Dp + k_dur tm) = true).
+    assert (EL : elapsed (now (run ls (init t0 pk))) (Dp + k_dur tm) = true).
     { apply elapsed_true. eapply N.le_trans; [apply ceil_add_le|]. lia. }
     congruence.
 Qed.
 
 (* the target's active flag and the ghost leave time agree; the leave time is in the past *)
-Theorem left_spec : forall ls t0,
-  let s := run ls (init t0) in
+Theorem left_spec : forall pk ls t0,
+  let s := run ls (init t0 pk) in
   (g_left (tgt s) = None <-> is_active (g_status (tgt s)) = true)
   /\ (forall tl, g_left (tgt s) = Some tl -> tl <= now s).
-Proof. intros. destruct (Inv2_run ls t0) as (_ & OK). apply (ok_left _ OK). Qed.
+Proof. intros. destruct (Inv2_run ls t0 pk) as (_ & OK). apply (ok_left _ OK). Qed.
 
 (* exit_after / kill_after: an exit caused by timer i happens no earlier than the period
    after its creation and carries the documented reason *)
-Theorem exit_kill_after : forall ls t0 r i t,
-  let s := run ls (init t0) in
+Theorem exit_kill_after : forall pk ls t0 r i t,
+  let s := run ls (init t0 pk) in
   g_exit (tgt s) = Some (r, Some i, t) ->
   exists tm, nth_error (timers s) i = Some tm
     /\ k_born tm + k_dur tm <= t
     /\ ((k_kind tm = KExit /\ r = RExitAfter (k_dur tm / ms)) \/ (k_kind tm = KKill /\ r = RKilled)).
 Proof.
-  intros ls t0 r i t s G. subst s.
-  destruct (Inv2_run ls t0) as ((TO & _) & OK).
+  intros pk ls t0 r i t s G. subst s.
+  destruct (Inv2_run ls t0 pk) as ((TO & _) & OK).
   destruct (ok_exit _ OK _ _ _ G) as (_ & tm & N & NI & C & BT & O). exists tm. repeat split; auto.
   pose proof (le_ceil (k_t0 tm + k_dur tm)). lia.
 Qed.
 
 (* every stop / kill request issued by a timer task is issued no earlier than its period *)
-Theorem exit_kill_effects : forall ls t0 e,
-  let s := run ls (init t0) in
+Theorem exit_kill_effects : forall pk ls t0 e,
+  let s := run ls (init t0 pk) in
   In e (effs s) -> (e_what e = EStop \/ e_what e = EKill) ->
   exists tm, nth_error (timers s) (e_tid e) = Some tm
     /\ k_born tm + k_dur tm <= e_time e
     /\ (e_what e = EStop -> k_kind tm = KExit) /\ (e_what e = EKill -> k_kind tm = KKill).
 Proof.
-  intros ls t0 e s IN W. subst s.
-  destruct (Inv1_run ls t0) as (TO & EO & _).
+  intros pk ls t0 e s IN W. subst s.
+  destruct (Inv1_run ls t0 pk) as (TO & EO & _).
   destruct (EO _ IN) as (_ & tm & N & NI & EK). exists tm. split; auto.
   pose proof (le_ceil (k_t0 tm + k_dur tm)).
   unfold eff_ok in EK.
@@ -1279,39 +1288,39 @@ Proof.
 Qed.
 
 (* ---------- the deterministic driver only ever performs model steps ---------- *)
-Lemma run_timer_is_run : forall f i d, d_s d = run (rev (d_ls d)) (init 0) ->
-  d_s (run_timer f i d) = run (rev (d_ls (run_timer f i d))) (init 0).
+Lemma run_timer_is_run : forall pk f i d, d_s d = run (rev (d_ls d)) (init 0 pk) ->
+  d_s (run_timer f i d) = run (rev (d_ls (run_timer f i d))) (init 0 pk).
 Proof.
   induction f; simpl; intros; auto. destruct (enabled (d_s d) i); auto.
   apply IHf. simpl. rewrite run_snoc. congruence.
 Qed.
 
-Lemma run_tgt_is_run : forall f d, d_s d = run (rev (d_ls d)) (init 0) ->
-  d_s (run_tgt f d) = run (rev (d_ls (run_tgt f d))) (init 0).
+Lemma run_tgt_is_run : forall pk f d, d_s d = run (rev (d_ls d)) (init 0 pk) ->
+  d_s (run_tgt f d) = run (rev (d_ls (run_tgt f d))) (init 0 pk).
 Proof.
   induction f; simpl; intros; auto. destruct (tgt_enabled _); auto.
   apply IHf. simpl. rewrite run_snoc. congruence.
 Qed.
 
-Lemma settle_is_run : forall tf f d, d_s d = run (rev (d_ls d)) (init 0) ->
-  d_s (settle tf f d) = run (rev (d_ls (settle tf f d))) (init 0).
+Lemma settle_is_run : forall pk tf f d, d_s d = run (rev (d_ls d)) (init 0 pk) ->
+  d_s (settle tf f d) = run (rev (d_ls (settle tf f d))) (init 0 pk).
 Proof.
   induction f; simpl; intros; auto. destruct (d_q d) as [|[i|] q]; auto.
   - apply IHf. unfold wake_tgt.
-    pose proof (run_timer_is_run tf i (mkDrv (d_s d) q (d_ls d)) H).
+    pose proof (run_timer_is_run pk tf i (mkDrv (d_s d) q (d_ls d)) H).
     destruct (tgt_enabled _); auto.
   - apply IHf. apply run_tgt_is_run. auto.
 Qed.
 
-Lemma exec_op_gen_is_run : forall tf f dp o, d_s (fst dp) = run (rev (d_ls (fst dp))) (init 0) ->
-  d_s (fst (exec_op_gen tf f dp o)) = run (rev (d_ls (fst (exec_op_gen tf f dp o)))) (init 0).
+Lemma exec_op_gen_is_run : forall pk tf f dp o, d_s (fst dp) = run (rev (d_ls (fst dp))) (init 0 pk) ->
+  d_s (fst (exec_op_gen tf f dp o)) = run (rev (d_ls (fst (exec_op_gen tf f dp o)))) (init 0 pk).
 Proof.
-  intros tf f (d, pr) o H. cbn [fst] in H.
-  assert (SN : forall d' l, d_s d' = run (rev (d_ls d')) (init 0) ->
-               d_s (dstep d' l) = run (rev (d_ls (dstep d' l))) (init 0)).
+  intros pk tf f (d, pr) o H. cbn [fst] in H.
+  assert (SN : forall d' l, d_s d' = run (rev (d_ls d')) (init 0 pk) ->
+               d_s (dstep d' l) = run (rev (d_ls (dstep d' l))) (init 0 pk)).
   { intros d' l H'. unfold dstep. cbn [d_s d_ls rev]. rewrite run_snoc. congruence. }
-  assert (WT : forall d', d_s d' = run (rev (d_ls d')) (init 0) ->
-               d_s (wake_tgt d') = run (rev (d_ls (wake_tgt d'))) (init 0)).
+  assert (WT : forall d', d_s d' = run (rev (d_ls d')) (init 0 pk) ->
+               d_s (wake_tgt d') = run (rev (d_ls (wake_tgt d'))) (init 0 pk)).
   { intros d' H'. unfold wake_tgt. destruct (tgt_enabled _); auto. }
   destruct o.
   - exact (SN d (Mk k dur) H).
@@ -1319,20 +1328,21 @@ Proof.
   - exact (WT _ (SN d (TStop r) H)).
   - exact (WT _ (SN d TKill H)).
   - exact (WT _ (SN d TDrain H)).
-  - exact (settle_is_run tf f d H).
-  - exact (SN _ (Advance dt) (settle_is_run tf f d H)).
-  - exact (settle_is_run tf f d H).
+  - exact (settle_is_run pk tf f d H).
+  - exact (SN _ (Advance dt) (settle_is_run pk tf f d H)).
+  - exact (settle_is_run pk tf f d H).
+  - exact (WT _ (SN d TgtStart H)).
 Qed.
 
 (* every scenario of the correspondence check is a run of the model: all theorems above
    apply to the states the driver reaches *)
-Theorem exec_is_run : forall ops,
-  d_s (fst (exec ops)) = run (rev (d_ls (fst (exec ops)))) (init 0).
+Theorem exec_is_run : forall pk ops,
+  d_s (fst (exec pk ops)) = run (rev (d_ls (fst (exec pk ops)))) (init 0 pk).
 Proof.
   intros. unfold exec, exec_op. generalize FUEL. intro f.
-  assert (G : forall ops dp, d_s (fst dp) = run (rev (d_ls (fst dp))) (init 0) ->
+  assert (G : forall ops dp, d_s (fst dp) = run (rev (d_ls (fst dp))) (init 0 pk) ->
               d_s (fst (fold_left (exec_op_gen f f) ops dp))
-              = run (rev (d_ls (fst (fold_left (exec_op_gen f f) ops dp)))) (init 0)).
+              = run (rev (d_ls (fst (fold_left (exec_op_gen f f) ops dp)))) (init 0 pk)).
   { induction ops0; simpl; intros; auto. apply IHops0. apply exec_op_gen_is_run. auto. }
   apply G. reflexivity.
 Qed.
